@@ -111,7 +111,7 @@ func c11CheckProof(blk *c11Block, ns libshare.Namespace, first *c11GenBlob, proo
 }
 
 // c11CheckBlock runs all queries of the property against one block.
-func c11CheckBlock(t *rapid.T, svc *Service, blk *c11Block, height uint64, rng *rand.Rand) {
+func c11CheckBlock(t *rapid.T, svc *Service, blk *c11Block, height uint64, rng *rand.Rand, maxAbsent int) {
 	ctx, cancel := context.WithCancel(context.Background())
 	defer cancel()
 	present := blk.NamespacesPresent()
@@ -216,9 +216,9 @@ func c11CheckBlock(t *rapid.T, svc *Service, blk *c11Block, height uint64, rng *
 		qs = append(qs, q{ns, random, "random commitment"})
 	}
 	qs = append(qs, q{absent[rng.IntN(len(absent))], random, "random commitment, absent namespace"})
-	if len(qs) > 24 { // bound the work per block; which ones are kept comes from the case's PRNG
+	if len(qs) > maxAbsent { // bound the work per block; which ones are kept comes from the case's PRNG
 		rng.Shuffle(len(qs), func(i, j int) { qs[i], qs[j] = qs[j], qs[i] })
-		qs = qs[:24]
+		qs = qs[:maxAbsent]
 	}
 	for _, x := range qs {
 		if c11First(blk.RefNamespace(x.ns), x.com) != nil {
@@ -271,16 +271,12 @@ func c11Record(blk *c11Block, config string) {
 			multi = true
 		}
 	}
-	afterPadded := false
+	afterPadded := blk.HasBlobAfterPaddedBlobInRow()
 	for _, ns := range blk.NamespacesPresent() {
 		ref := blk.RefNamespace(ns)
 		for i := 1; i < len(ref); i++ {
 			if ref[i].Start == ref[i-1].Start+ref[i-1].Shares {
 				adjacent = true
-			}
-			// a blob that starts in the row in which a padded blob of its namespace started
-			if blk.PaddingBefore(ref[i-1]) > 0 && ref[i].Start/blk.ODS == ref[i-1].Start/blk.ODS {
-				afterPadded = true
 			}
 		}
 	}
@@ -339,7 +335,7 @@ func TestVerifC11_MemGetter(t *testing.T) {
 		blocks := map[uint64]*c11Block{height: blk}
 		svc := NewService(nil, &c11MemGetter{blocks: blocks}, c11HeaderGetter(blocks), c11NoSub)
 		c11Record(blk, "mem")
-		c11CheckBlock(t, svc, blk, height, rand.New(rand.NewPCG(blk.Seed, 0xC11C4EC)))
+		c11CheckBlock(t, svc, blk, height, rand.New(rand.NewPCG(blk.Seed, 0xC11C4EC)), 24)
 	})
 }
 
@@ -371,6 +367,7 @@ func TestVerifC11_StoreGetter(t *testing.T) {
 		blocks := map[uint64]*c11Block{height: blk}
 		svc := NewService(nil, store.NewGetter(st), c11HeaderGetter(blocks), c11NoSub)
 		c11Record(blk, config)
-		c11CheckBlock(t, svc, blk, height, rand.New(rand.NewPCG(blk.Seed, 0xC11C4EC)))
+		// (every row read re-extends the row from the file: fewer absent-commitment queries here)
+		c11CheckBlock(t, svc, blk, height, rand.New(rand.NewPCG(blk.Seed, 0xC11C4EC)), 8)
 	})
 }
